@@ -340,7 +340,8 @@ func flattenScenarios(tier string, seed int64, scratch string) ([]*Case, []strin
 			Anon:      fs.T == "anonprop" || fs.T == "anonitems" || fs.T == "anonallof" || fs.T == "anonsibling",
 			SharedPtr: fs.T == "sharedparam" || fs.T == "sharedresp",
 			// a pointer nested in a pointer target belongs to the wider class W+ (C09 only)
-			WPlus: fs.S == "ptrarray"}
+			// ... and so do holders under keywords that Swagger 2.0 does not have (patternProperties, anyOf, oneOf, not, nested definitions)
+			WPlus: fs.S == "ptrarray" || fs.H == "patprop" || fs.H == "anyof" || fs.H == "oneof" || fs.H == "not" || fs.H == "nesteddefs"}
 		bindPlaceholders(g, b.Docs)
 		for _, cc := range g.Names.ToConcrete {
 			if !safeKeyRe.MatchString(cc) && !strings.HasPrefix(cc, "/") {
